@@ -94,6 +94,11 @@ class IndexOps:
                 labels = ch.sample(pool, n)
         if labels and self.want_fault(ch):
             labels.insert(ch.randint(0, len(labels)), ch.choice(labels))  # duplicate -> must be rejected
+        if not u and ch.chance(0.12):
+            # the public dtype argument: the index holds (and must be unique over) the *converted* labels
+            op['dtype'] = ch.choice(['int', 'float', 'str', 'object'])
+            if ch.chance(0.6):
+                labels = ch.sample([1.2, 1.7, 2.0, 3.5, 4.0, 7.25, 3], ch.randint(0, 4))
         op['labels'] = labels
         return op
 
@@ -245,8 +250,20 @@ class IndexOps:
                 arg = np.array(labels)
             else:
                 arg = list(labels)
-            st, r = call(lambda: self._ix_cls(cls)(arg, name=name))
-        site = f'{cls}.__init__'
+            if op.get('dtype'):
+                dt = {'int': np.int64, 'float': np.float64, 'str': str, 'object': object}[op['dtype']]
+                try:
+                    coerced = np.array(labels, dtype=dt).tolist() if labels else []
+                except Exception:
+                    return 'skip'
+                dup_after = len(set(norm_list(coerced))) != len(coerced)
+                if dup_after and not dup:
+                    self.fault('construct-duplicate-after-dtype-conversion')
+                dup = dup or dup_after
+                st, r = call(lambda: self._ix_cls(cls)(arg, name=name, dtype=dt))
+            else:
+                st, r = call(lambda: self._ix_cls(cls)(arg, name=name))
+        site = f'{cls}.__init__' + ('(dtype)' if op.get('dtype') else '')
         if dup:
             self.fault('construct-duplicate')
             if st == 'ok':
